@@ -213,6 +213,12 @@ impl Check for NftConsecutive {
     fn components(&self) -> serde_json::Value {
         serde_json::json!({"real": ["examples/nft-consecutive (from source)", "non_fungible::{Base, consecutive::Consecutive, sequential, burnable}"], "stub": ["Wallet"]})
     }
+    fn dup_ok(&self, _s: &Step) -> bool {
+        true
+    }
+    fn reorder_ok(&self) -> bool {
+        true
+    }
     fn property_of(&self, check: &str) -> std::vec::Vec<&'static str> {
         if check.starts_with("owner.") || check.starts_with("balance.") || check.starts_with("enum.") || check.starts_with("supply.") || check.starts_with("ids.") || check.starts_with("others.") {
             vec!["C10"]
